@@ -15,6 +15,10 @@ impl Monitor for C02 {
     fn prop(&self) -> &'static str {
         "C02"
     }
+    fn scalable(&self, g: &str) -> bool {
+        let _ = g;
+        true
+    }
     fn gens(&self, tier: Tier) -> Vec<Gen> {
         vec![
             gen("valid", tier.pick(40_000, 3_000_000, 60)),
